@@ -23,6 +23,10 @@
 From Coq Require Import List Sorted.
 From SigM Require Import Base QueryLife EvalIdx.
 From SigP Require Import BaseProofs QueryLifeProofs EvalIdxProofs.
+From Coq Require String.
+From SigM Require LockTrace.
+From SigG Require GenLocks.
+From SigP Require LockTraceProofs GenLocksCheck GenLocksProofs.
 Import ListNotations.
 Open Scope nat_scope.
 
@@ -159,6 +163,105 @@ Theorem C17_admission_never_blocks : forall mx ops o,
 Proof. exact admission_never_blocks. Qed.
 Print Assumptions C17_admission_never_blocks.
 
+(* ---------- the locks held while a sender waits for a slow receiver ----------
+   Lock-level model (SigM.QueryLife, second half): arqMapLock (RWMutex; a waiting writer stops new
+   readers), waitingQueriesLock, the per-query rqsLock, StateChan sends that park while the channel
+   is full ([full], may change from call to call).  Every function of querystatus.go is a script
+   ([script]: acquisitions, releases, sends in program order); a goroutine runs until the first
+   action that cannot proceed and parks there with the locks it holds ([exec], [lrun]).
+   The harness observes on the real code, call by call, returned/parked and TryLock probes of the
+   three locks, and compares them with [exec] / [probe] in Coq. *)
+
+(* CancelQuery - called directly or by the timeout watcher - holds no lock at its CANCELLED send,
+   nor does the watcher at its TIMEOUT send *)
+Theorem C17_cancel_send_holds_no_lock : forall q w,
+  Forall (fun x => snd x = []) (held_at_sends [] (script (LCancel q w))) /\
+  Forall (fun x => snd x = []) (held_at_sends [] (script (LTimeoutCancel q))) /\
+  Forall (fun x => snd x = []) (held_at_sends [] (script (LTimeoutSend q))).
+Proof. exact cancel_send_holds_no_lock. Qed.
+Print Assumptions C17_cancel_send_holds_no_lock.
+
+(* for ANY scripts (whatever code they stand for) that never send on a full channel while holding
+   a lock, in any order and with any channels full at any time: every parked goroutine holds no
+   lock and waits for a receiver *)
+Theorem C17_parked_senders_hold_no_lock : forall steps,
+  Forall (fun fs => sends_unlocked (fst fs) [] (snd fs) = true) steps ->
+  Forall (fun p => p_holds p = [] /\ exists q, p_wait p = WSend q) (lrun [] steps).
+Proof. exact parked_senders_hold_no_lock. Qed.
+Print Assumptions C17_parked_senders_hold_no_lock.
+
+(* FULL STATEMENT (fails for the code as it is, see the refutation below):
+     forall steps full' o', forallb (fun q => negb (full' q)) (lop_qids o') = true ->
+       exec full' (lrun [] (code_steps steps)) [] (script o') = None
+   "whatever was called before and whichever channels were full, a call that concerns only queries
+   whose channel is not full returns".
+   GUARDED ([lop_ok]: queries are started on a channel that is not full - C17_admission_never_blocks,
+   C17_waiting_untouched - and IncProgressForRRCCmd / SetPipeResp are not among the calls): a full
+   channel of one query never blocks an operation on another query - nor an accessor of the blocked
+   query itself - however many cancels, timeouts and executor sends wait for the receiver *)
+Theorem C17_full_channel_blocks_no_other_query_guarded : forall steps full' o',
+  forallb (fun fo => lop_ok (fst fo) (snd fo)) steps = true ->
+  forallb (fun q => negb (full' q)) (lop_qids o') = true ->
+  exec full' (lrun [] (code_steps steps)) [] (script o') = None.
+Proof. exact full_channel_blocks_no_operation_on_other_queries. Qed.
+Print Assumptions C17_full_channel_blocks_no_other_query_guarded.
+
+(* the same with the weakest premise on the call: none of ITS sends goes to a full channel *)
+Theorem C17_full_channel_blocks_only_its_senders_guarded : forall steps full' o',
+  forallb (fun fo => lop_ok (fst fo) (snd fo)) steps = true ->
+  targets_not_full full' (script o') = true ->
+  exec full' (lrun [] (code_steps steps)) [] (script o') = None.
+Proof. exact full_channel_blocks_no_other_query. Qed.
+Print Assumptions C17_full_channel_blocks_only_its_senders_guarded.
+
+(* the guard is met by a history with a canceller, a timeout watcher (at either of its sends) and an executor parked on the
+   full channel of query 1 while query 2 is started, admitted, cancelled and deleted *)
+Theorem C17_lock_guard_satisfiable :
+  let steps := [(nonefull, LStart 1 true false); (only 1, LCancel 1 InRun); (only 1, LTimeoutCancel 1);
+                (only 1, LTimeoutSend 1); (only 1, LExecSend 1); (only 1, LNestedAccessor 1); (only 1, LAccessor 1);
+                (only 1, LStart 2 false true); (only 1, LPull (Some 2)); (only 1, LCancel 2 InRun);
+                (only 1, LDelete 2 InRun); (only 1, LCount)]%N in
+  forallb (fun fo => lop_ok (fst fo) (snd fo)) steps = true /\
+  lrun [] (code_steps steps) = [mkP [] (WSend 1); mkP [] (WSend 1); mkP [] (WSend 1); mkP [] (WSend 1)]%N.
+Proof. exact lock_guard_satisfiable. Qed.
+Print Assumptions C17_lock_guard_satisfiable.
+
+(* REFUTED without the guard (known finding progress_update_waiting_for_receiver_blocks_other_queries,
+   confirmed on the real code): IncProgressForRRCCmd / SetPipeResp send QUERY_UPDATE while they hold
+   rqsLock of the query; when its channel is full and a worker of the same query calls
+   Get/SetAllColsInAggsForQid (rqsLock taken under arqMapLock.RLock), StartQuery of ANOTHER query
+   parks on arqMapLock and after it even GetActiveQueryCount; without the nested accessor only the
+   callers that need the rqsLock of that query (its own CancelQuery included) wait *)
+Theorem C17_full_channel_blocks_other_queries_refuted :
+  exists full q q', q <> q' /\ full q' = false /\
+    lop_ok full (LProgressSend q) = false /\
+    held_at_sends [] (script (LProgressSend q)) = [(q, [(LRqs q, Wr)])] /\
+    let ps := lrun [] (code_steps [(full, LProgressSend q); (full, LNestedAccessor q)]) in
+    exec full ps [] (script (LStart q' false false)) = Some (mkP [] (WAcq LArq Wr)) /\
+    exec full (lstep ps (full, script (LStart q' false false))) [] (script LCount) <> None /\
+    exec full (lrun [] (code_steps [(full, LProgressSend q)])) [] (script (LStart q' false false)) = None /\
+    exec full (lrun [] (code_steps [(full, LProgressSend q)])) [] (script (LCancel q InRun)) = Some (mkP [] (WAcq (LRqs q) Wr)).
+Proof. exact progress_send_under_query_lock_refuted. Qed.
+Print Assumptions C17_full_channel_blocks_other_queries_refuted.
+
+(* REFUTED for a CancelQuery that sends under the query's lock ([cancel_script true]:
+   "rqsLock.Lock(); defer rqsLock.Unlock()" - NOT the code, [script (LCancel q w)] = [cancel_script false q w]):
+   the discipline is broken, the canceller parks holding rqsLock, the worker parks holding
+   arqMapLock.RLock, StartQuery of another query, GetActiveQueryCount, DeleteQuery and the puller park *)
+Theorem C17_send_under_query_lock_refuted :
+  exists full q q', q <> q' /\ full q' = false /\
+    sends_unlocked full [] (cancel_script true q InRun) = false /\
+    held_at_sends [] (cancel_script true q InRun) = [(q, [(LRqs q, Wr)])] /\
+    let ps := lrun [] [(full, cancel_script true q InRun); (full, script (LNestedAccessor q))] in
+    ps = [mkP [(LRqs q, Wr)] (WSend q); mkP [(LArq, Rd)] (WAcq (LRqs q) Wr)] /\
+    exec full ps [] (script (LStart q' false false)) = Some (mkP [] (WAcq LArq Wr)) /\
+    let ps' := lstep ps (full, script (LStart q' false false)) in
+    exec full ps' [] (script LCount) = Some (mkP [] (WAcq LArq Rd)) /\
+    exec full ps' [] (script (LDelete q' InWait)) <> None /\
+    exec full ps' [] (script (LPull None)) <> None.
+Proof. exact send_under_query_lock_refuted. Qed.
+Print Assumptions C17_send_under_query_lock_refuted.
+
 (* ---------- regression witnesses of the repaired defects, and non-vacuity ---------- *)
 Theorem C17_fixed_witnesses :
   (let s := run 2 init [Start 7 false false; Cancel 7; Pull] in
@@ -245,3 +348,39 @@ Theorem C17_prefix_no_send_on_full_channel_refuted :
   exists mx ops, wedged (run_prefix mx init ops) = true /\ wedged (run_prefix mx init (removelast ops)) = false.
 Proof. exact prefix_no_send_on_full_channel_refuted. Qed.
 Print Assumptions C17_prefix_no_send_on_full_channel_refuted.
+
+(* ==== lock discipline of the code as it is NOW ====
+   coq/gen/GenLocks.v holds the lock / channel skeleton of every function of 19 packages (query admission and execution,
+   metadata, writer, searcher, metrics results ...), regenerated from /repo's type-checked source on every run (gotrans
+   locktrace); LockTrace.analyse computes every lock set a skeleton can reach. *)
+
+(* the analysis is sound: a clean report covers EVERY trace of the skeleton — all branch choices, any number of loop iterations *)
+Theorem C17_lock_analysis_sound : forall (fuel : nat) (s : LockTrace.stm),
+  LockTrace.analyse fuel s = [] -> forall t o, LockTrace.exec s t o -> LockTrace.trace_ok t.
+Proof. exact LockTraceProofs.analyse_sound. Qed.
+Print Assumptions C17_lock_analysis_sound.
+
+(* what an objection means: somewhere on the trace a blocking channel operation happens while a lock is held /
+   a mutex is acquired that the goroutine already holds *)
+Theorem C17_lock_objection_block_means : forall t h0 c l, LockTrace.mrun h0 t = inr (LockTrace.VBlockUnderLock c l) ->
+  exists t1 k t2 h, t = t1 ++ (k, c) :: t2 /\ (k = LockTrace.KSend \/ k = LockTrace.KRecv)
+    /\ LockTrace.mrun h0 t1 = inl h /\ LockTrace.holds h l = true.
+Proof. exact LockTraceProofs.mrun_block_means. Qed.
+Theorem C17_lock_objection_reacquire_means : forall t h0 o, LockTrace.mrun h0 t = inr (LockTrace.VReacquire o) ->
+  exists t1 k t2 h, t = t1 ++ (k, o) :: t2 /\ (k = LockTrace.KLock \/ k = LockTrace.KRLock)
+    /\ LockTrace.mrun h0 t1 = inl h /\ LockTrace.holds h o = true.
+Proof. exact LockTraceProofs.mrun_reacquire_means. Qed.
+
+(* every function of those packages that is not one of the listed hazards of the unchanged tree (GenLocksCheck.lk_exceptions:
+   READY/RUNNING and QUERY_RESTART sent under arqMapLock, progress updates of async queries sent under rqsLock, ...):
+   on no trace of its skeleton does the goroutine block on a channel while holding a lock or re-acquire a mutex it holds *)
+Theorem C17_lock_discipline : forall (name : String.string) (s : LockTrace.stm),
+  In (name, s) GenLocks.lk_all -> GenLocksCheck.allowed name GenLocksCheck.lk_exceptions = [] ->
+  forall t o, LockTrace.exec s t o -> LockTrace.trace_ok t.
+Proof. exact GenLocksProofs.lk_discipline. Qed.
+Print Assumptions C17_lock_discipline.
+
+(* non-vacuity: CancelQuery, DeleteQuery, the accessors and the timeout watcher are present and not among the exceptions *)
+Theorem C17_lock_discipline_covers_cancel_and_delete :
+  forallb GenLocksProofs.lk_covered GenLocksProofs.lk_c17_functions = true.
+Proof. exact GenLocksProofs.lk_c17_functions_covered. Qed.
